@@ -1106,10 +1106,16 @@ where
                 trace!("timer timed out; closing connection");
                 this.flags.insert(Flags::SHUTDOWN);
 
+                // the timer has done its job; left active it would be ready on every later poll
+                // and push the shutdown deadline further each time
+                this.ka_timer.clear(line!());
+
                 if let Some(deadline) = this.config.client_disconnect_deadline() {
-                    // start shutdown timeout if enabled
-                    this.shutdown_timer
-                        .set_and_init(cx, sleep_until(deadline.into()), line!());
+                    // start shutdown timeout if enabled (keep the deadline of one already running)
+                    if !matches!(this.shutdown_timer, TimerState::Active { .. }) {
+                        this.shutdown_timer
+                            .set_and_init(cx, sleep_until(deadline.into()), line!());
+                    }
                 } else {
                     // no shutdown timeout, drop socket
                     this.flags.insert(Flags::WRITE_DISCONNECT);
